@@ -179,6 +179,10 @@ impl Context {
             if rounds >= 64 {
                 break;
             }
+            // ... and one that mentions itself twice doubles the text at every round
+            if res.len() > 65536 {
+                break;
+            }
         }
         res
     }
